@@ -433,3 +433,4 @@ def check(run):
     run.assumptions.append("raw SQL supplied by the user (Expr::cust, extra(), custom keywords/functions) contains no unquoted placeholder marks")
     run.assumptions.append("C01.R8 (no value-carrying field is dropped by a renderer) is decided under C07/C08 field consumption")
     run.delegate("C03", "a Value written with Display inside a renderer is inlined (and mis-quoted) instead of being bound", only_rules={"R6"})
+    run.delegate("C11", "a placeholder mark of a custom template that is copied to the output without binding its value leaves more marks than values", only_rules={"R1", "R2"})
